@@ -676,6 +676,12 @@ func (x *Exec) builtin(st *State, b *ssa.Builtin, c *ssa.CallCommon, args []Val,
 		case isSeq(t.Sort):
 			return one(mkT("Int", App("Int", "len_"+seqElem(t.Sort), t).S, types.Typ[types.Int]))
 		}
+		if mt, ok := c.Args[0].Type().Underlying().(*types.Map); ok {
+			ks := x.reg.SortOf(mt.Key())
+			dn, _ := x.reg.MapArrays(ks, x.reg.SortOf(mt.Elem()))
+			card := App("Int", x.reg.MapCard(ks), sel(x.heapGet(st, dn), t, x.reg.heap[dn][1]))
+			return one(mkT("Int", Ite(Eq(t, IntLit(0)), IntLit(0), card).S, types.Typ[types.Int]))
+		}
 		x.unsupported(st, pos, "len of %s", t.Sort)
 	case "append":
 		a := x.term(st, args[0], pos)
